@@ -21,7 +21,7 @@ from _griffe.expressions import ExprName
 from _griffe.extensions.base import Extensions, load_extensions
 from _griffe.finder import ModuleFinder, NamespacePackage, Package
 from _griffe.git import tmp_worktree
-from _griffe.importer import dynamic_import
+from _griffe.importer import dynamic_import, sys_path
 from _griffe.logger import logger
 from _griffe.merger import merge_stubs
 from _griffe.models import Alias, Module, Object
@@ -156,7 +156,10 @@ class GriffeLoader:
             top_module_object = dynamic_import(top_module_name, self.finder.search_paths)
 
             try:
-                top_module_path = top_module_object.__path__
+                # Asking for `__path__` can run code of the module too (a module-level `__getattr__`):
+                # it runs with the same import paths as the import above, and what it does to `sys.path` is undone.
+                with sys_path(*self.finder.search_paths):
+                    top_module_path = top_module_object.__path__
                 if not top_module_path:
                     raise ValueError(f"Module {top_module_name} has no paths set")  # noqa: TRY301
             except (AttributeError, ValueError):
